@@ -135,6 +135,11 @@ class SigmaRuleBase:
                             result = date(int(matcher[1]), int(matcher[2]), int(matcher[3]))
                             error = False
                             break
+                    if error and re.fullmatch(
+                        "[1-3][0-9]{3}-[01][0-9]-[0-3][0-9]T[0-9:.+-]+", value
+                    ):  # a YAML timestamp with time of day as written by to_dict()
+                        result = datetime.fromisoformat(value)
+                        error = False
                 except Exception:
                     pass
                 if error:
